@@ -35,7 +35,7 @@ pub fn default_cfg() -> SCfg { SCfg { cltv_delta: 34, policy_delta: 144, base: 1
 type Mgr = HtlcManager<BlockWatcher, NoNotify, PayPaymentProvider<Rpc>, ClnDatastore>;
 
 /// one delivered `htlc_accepted` call
-pub struct Call { pub id: u64, pub a: u64, pub b11: u8, pub t: u64, pub rejecting: bool, pub amount: u64, pub expiry: u32, pub hash: Vec<u8>, pub jh: Option<tokio::task::JoinHandle<Result<HtlcAcceptedResponse, ()>>>, pub resp: Option<String>, pub life: u32 }
+pub struct Call { pub id: u64, pub a: u64, pub b11: u8, pub t: u64, pub rejecting: bool, pub is_tramp: bool, pub policy_reject: bool, pub first_of_set: bool, pub amount: u64, pub expiry: u32, pub hash: Vec<u8>, pub jh: Option<tokio::task::JoinHandle<Result<HtlcAcceptedResponse, ()>>>, pub resp: Option<String>, pub life: u32 }
 
 /// everything that survives a crash
 pub struct World {
@@ -54,6 +54,7 @@ pub struct World {
     pub life: u32,
     pub fault_read: bool,        // a read fault was injected (known-finding territory)
     pub lost_write: bool,        // an acknowledged write was dropped (C09's quantifier only)
+    pub wfault: bool,            // a write fault (refused / applied-but-failed) was injected
     pub fault_kind: String,      // which read was made to fail last: `dl` or `wait`
     pub height: u32,
     pub model_wall: u64,         // what the trace has told the model about the wall clock
@@ -65,6 +66,7 @@ pub struct World {
     pub init_snap: Option<(u64, u32)>,
     pub other: Option<(String, Vec<u8>, String)>,   // a second payment hash frozen at its first RPC: (hash hex, hash, invoice)
     pub other_call: Option<tokio::task::JoinHandle<Result<HtlcAcceptedResponse, ()>>>,
+    pub select_seed: u64,        // seed of tokio's runtime RNG (select! polling order), part of the schedule line
     pub other_depth: usize,      // how many of the other hash's RPCs are answered before it is frozen
     pub other_frozen_log: usize, // number of requests the other hash had issued when it was frozen (this lifetime)
     pub idle_since: Option<u64>, // C11: since when (virtual s) HTLCs are held with no RPC outstanding and no pay running
@@ -83,7 +85,7 @@ impl World {
         { let mut n = node.lock().unwrap(); n.height = 1000; n.node_id = pubkey(LOCAL).to_string(); }
         World { node, hash_hex: hash.to_string(), hash: hash.to_byte_array().to_vec(),
             inv_fixed: make_invoice(&pre, Some(1_000_000), 0, 2), inv_open: make_invoice(&pre, None, 0, 2), open, inv_amount: 1_000_000, cfg,
-            calls: vec![], aids: vec![], acts: vec![], obs: vec![], life: 0, fault_read: false, lost_write: false, fault_kind: String::new(), height: 1000, model_wall: 0, stamp: BTreeMap::new(), mono: 0, wait_started: None, next_part: 1, restart_aid: None, init_snap: None, other: None, other_call: None, other_depth: 0, other_frozen_log: 0, idle_since: None, no_pay: vec![], hold: vec![] }
+            calls: vec![], aids: vec![], acts: vec![], obs: vec![], life: 0, fault_read: false, lost_write: false, wfault: false, fault_kind: String::new(), height: 1000, model_wall: 0, stamp: BTreeMap::new(), mono: 0, wait_started: None, next_part: 1, restart_aid: None, init_snap: None, other: None, other_call: None, select_seed: 0, other_depth: 0, other_frozen_log: 0, idle_since: None, no_pay: vec![], hold: vec![] }
     }
     fn aid_canon(&mut self, aid: &str) -> usize {
         if let Some(p) = self.aids.iter().position(|a| a == aid) { return p + 1; }
@@ -235,7 +237,7 @@ async fn observe(w: &mut World, ctx: &mut Ctx, pay_seen: &mut Vec<u64>, act: &st
     // That state may last at most one timeout (after a restart path: at most the remaining time, which is less).
     let incomplete = { let h = held(w); let sum: u128 = h.iter().map(|c| c.amount as u128).sum(); h.first().map(|c| sum < need(w, c.a)).unwrap_or(false) };
     let quiet_now = w.node.lock().unwrap().quiet(&w.hash_hex);
-    let idle = !held(w).is_empty() && out.is_empty() && incomplete && quiet_now;
+    let idle = !held(w).is_empty() && held(w).iter().all(|c| c.is_tramp) && out.is_empty() && incomplete && quiet_now && w.other.is_none();
     if idle && !w.fault_read {
         match w.idle_since {
             None => w.idle_since = Some(w.mono),
@@ -245,17 +247,29 @@ async fn observe(w: &mut World, ctx: &mut Ctx, pay_seen: &mut Vec<u64>, act: &st
     // C11 (lower bound): a set with no attempt ever on record and no rejecting member is not failed before the timeout
     if w.aids.is_empty() && !w.fault_read && !resps.is_empty() && resps.iter().all(|(_, r)| r == "fail:2019") {
         let set: Vec<&Call> = resps.iter().map(|(i, _)| &w.calls[*i as usize]).collect();
-        if !set.iter().any(|c| c.rejecting) {
+        if !set.iter().any(|c| c.rejecting) && set.iter().all(|c| c.is_tramp) {
             let first = set.iter().map(|c| c.t).min().unwrap_or(0);
             if w.mono - first < w.cfg.mpp { ctx.violation("C11", "timeout-early", &format!("htlcs {:?} failed {} s after the first arrived (mpp timeout {} s, no policy rejection, no earlier attempt) REPLAY[{}]", set.iter().map(|c| c.id).collect::<Vec<_>>(), w.mono - first, w.cfg.mpp, replay(w))); }
         }
     }
+    // C12: a fee-or-expiry-insufficient failure carries exactly the configured policy
+    let foei: String = { let mut v = vec![0x20u8, 26]; v.extend_from_slice(&w.cfg.base.to_be_bytes()); v.extend_from_slice(&w.cfg.ppm.to_be_bytes()); v.extend_from_slice(&w.cfg.policy_delta.to_be_bytes()); format!("fail:{}", hex(&v)) };
+    for (id, r) in &resps { if r.starts_with("fail:201a") && *r != foei { ctx.violation("C12,C19", "foei-policy-mismatch", &format!("htlc {} answered {} but the configured policy encodes as {} REPLAY[{}]", id, r, foei, replay(w))); } }
+    // C12: the first HTLC of a payment with no attempt ever on record that fails the policy is answered with that failure
+    if w.aids.is_empty() && w.cfg.mpp != 0 && !w.fault_read && !w.lost_write {
+        for (id, r) in &resps { let c = &w.calls[*id as usize]; if c.first_of_set && c.policy_reject && *r != foei && r != "panic" && stored_state(w).is_none() && !w.wfault {
+            ctx.violation("C12", "first-htlc-not-foei", &format!("htlc {} (first of its payment, declared total or relative expiry below the policy, nothing on record) answered {} instead of {} REPLAY[{}]", id, r, foei, replay(w))); } }
+    }
+    // C13/C10: an HTLC that is not a trampoline request (amount TLV contradicting a fixed-amount invoice) is answered at once
+    for c in w.calls.iter() { if !c.is_tramp && c.resp.is_none() && c.life == w.life { ctx.violation("C13,C10", "non-trampoline-held", &format!("htlc {} is not a trampoline request but was not answered at once REPLAY[{}]", c.id, replay(w))); } }
     if panicked { ctx.violation("C06", "system-panic", &format!("an htlc_accepted call panicked REPLAY[{}]", replay(w))); }
     format!("out=[{}] resp=[{}] pay=[{}]", out.join(","), resps.iter().map(|(i, s)| format!("{}={}", i, s)).collect::<Vec<_>>().join(","), pays.join(","))
 }
 
 fn replay(w: &World) -> String { format!("sy {} {}", header(w), w.acts.join(" ")) }
-pub fn header(w: &World) -> String { format!("{},{},{},{},{},{}", w.cfg.cltv_delta, w.cfg.policy_delta, w.cfg.base, w.cfg.ppm, w.cfg.mpp, w.open as u8) }
+/// the 7th field: 0 = no second hash; d+1 = a second hash frozen after d of its RPCs
+/// the 8th field seeds tokio's per-runtime RNG (which `select!` branch is polled first)
+pub fn header(w: &World) -> String { format!("{},{},{},{},{},{},{},{}", w.cfg.cltv_delta, w.cfg.policy_delta, w.cfg.base, w.cfg.ppm, w.cfg.mpp, w.open as u8, if w.other.is_some() { w.other_depth + 1 } else { 0 }, w.select_seed) }
 
 fn held(w: &World) -> Vec<&Call> { w.calls.iter().filter(|c| c.resp.is_none() && c.life == w.life).collect() }
 
@@ -346,6 +360,8 @@ pub async fn apply(w: &mut World, p: &Plugin, rng: &mut Rng, act: &str) -> Step 
         // C07 bookkeeping, from the property's own words: does this HTLC trigger a rejection of a still-incomplete set?
         let is_tramp = w.open || amt == w.inv_amount;
         let mut rejecting_flag = false;
+        let policy_reject = is_tramp && (rel < w.cfg.policy_delta as i64 || (total.unwrap_or(hamt) as u128) < need(w, amt));
+        let first_of_set = held(w).is_empty();
         if is_tramp {
             let (first, sum): (Option<(u8, u64)>, u128) = { let h = held(w); (h.first().map(|c| (c.b11, c.a)), h.iter().map(|c| c.amount as u128).sum()) };
             let (b0, a0) = first.unwrap_or((b11, amt));
@@ -355,7 +371,7 @@ pub async fn apply(w: &mut World, p: &Plugin, rng: &mut Rng, act: &str) -> Step 
         }
         let m = p.mgr.clone();
         let jh = tokio::spawn(async move { AssertUnwindSafe(m.handle_htlc(&req)).catch_unwind().await.map_err(|_| ()) });
-        w.calls.push(Call { id, a: amt, b11, t: w.mono, rejecting: rejecting_flag, amount: hamt, expiry, hash: w.hash.clone(), jh: Some(jh), resp: None, life: w.life });
+        w.calls.push(Call { id, a: amt, b11, t: w.mono, rejecting: rejecting_flag, is_tramp, policy_reject, first_of_set, amount: hamt, expiry, hash: w.hash.clone(), jh: Some(jh), resp: None, life: w.life });
     } else if let Some(dt) = act.strip_prefix("tm") { let dt: u64 = dt.parse().unwrap(); tokio::time::advance(Duration::from_secs(dt)).await; w.mono += dt; }
     else if let Some(dt) = act.strip_prefix("tw") {
         let dt: u64 = dt.parse().unwrap(); w.model_wall += dt;
@@ -401,6 +417,7 @@ pub async fn apply(w: &mut World, p: &Plugin, rng: &mut Rng, act: &str) -> Step 
             drop(n);
             if kind == "fE" { w.fault_read = true; w.fault_kind = if tok.starts_with("dl") { "dl".into() } else { "wait".into() }; }
             if kind == "fL" { w.lost_write = true; }
+            if kind == "fR" || kind == "fA" { w.wfault = true; }
             if m == "listdatastore" && kind == "s" { w.restart_aid = stored_state(w).and_then(|v| v.get("Pending").and_then(|p| p["attempt_id"].as_str().map(|x| x.to_string()))); }
             // remember when a Pending marker was really written (for the wall-clock alignment)
             if m == "datastore" && (kind == "s" || kind == "fA") { if let Ok(v) = serde_json::from_str::<Value>(pr["string"].as_str().unwrap_or("")) { if let Some(pd) = v.get("Pending") { w.stamp.insert(pd["attempt_id"].as_str().unwrap_or("").to_string(), (pd["attempt_time_seconds"].as_u64().unwrap_or(0), w.model_wall)); } } }
@@ -450,7 +467,7 @@ fn would_succeed(w: &mut World, tok: &str) -> bool {
     }
 }
 
-pub struct Gen { pub faults_w: bool, pub faults_r: bool, pub crashes: bool, pub lost: bool, pub replay: bool, pub coop: Option<bool>, pub other: bool, pub other_depth: usize, pub hold_first: usize }
+pub struct Gen { pub faults_w: bool, pub faults_r: bool, pub crashes: bool, pub lost: bool, pub replay: bool, pub coop: Option<bool>, pub other: bool, pub other_depth: usize, pub hold_first: usize, pub select_seed: Option<u64> }
 
 /// enabled actions of the real system, with multiplicity as weight
 pub fn candidates(w: &mut World, rng: &mut Rng, g: &Gen, step: usize) -> Vec<String> {
@@ -523,6 +540,7 @@ enum Phase { Random, Drain, Probe(u8), Done }
 /// injected (C09: it must settle, at the latest at the second attempt).
 pub fn run_case(ctx: &mut Ctx, rng: &mut Rng, sock: &str, open: bool, cfg: SCfg, script: Vec<String>, len: usize, g: &Gen) -> Vec<String> {
     let mut w = World::new(0, open, cfg);
+    w.select_seed = match g.select_seed { Some(x) => x, None => rng.below(1 << 32) };
     if g.other {
         let pre_b = node::preimage_bytes(78);
         let hb = sha256::Hash::hash(&pre_b);
@@ -538,7 +556,8 @@ pub fn run_case(ctx: &mut Ctx, rng: &mut Rng, sock: &str, open: bool, cfg: SCfg,
     let mut hold_pending = false;
     let mut pending_control: Option<String> = None;
     loop {
-        let rt = tokio::runtime::Builder::new_current_thread().enable_all().start_paused(true).build().unwrap();
+        let rt = tokio::runtime::Builder::new_current_thread().enable_all().start_paused(true)
+            .rng_seed(tokio::runtime::RngSeed::from_bytes(format!("{}-{}", w.select_seed, w.life).as_bytes())).build().unwrap();
         let crashed = rt.block_on(async {
             let p = boot(&w, sock).await;
             let mut pay_seen: Vec<u64> = Vec::new();
@@ -657,7 +676,7 @@ pub fn run_case(ctx: &mut Ctx, rng: &mut Rng, sock: &str, open: bool, cfg: SCfg,
     if let Some(detail) = pending_control.take() {
         // the same actions without the second hash: if the calls are answered then, the frozen hash was the cause
         let mut ctrl = Ctx::new("control", ctx.seed, false, &format!("{}/control", ctx.dir), None);
-        let gc = Gen { faults_w: false, faults_r: false, crashes: false, lost: false, replay: false, coop: None, other: false, other_depth: 0, hold_first: 0 };
+        let gc = Gen { faults_w: false, faults_r: false, crashes: false, lost: false, replay: false, coop: None, other: false, other_depth: 0, hold_first: 0, select_seed: Some(w.select_seed) };
         run_case(&mut ctrl, rng, sock, open, SCfg { ..w.cfg }, w.acts.clone(), 0, &gc);
         if ctrl.hangs > 0 { ctx.violation("C06", "hang", &detail); }
         else { ctx.violation("C14,C06", "hang:other-hash-frozen", &format!("(answered when the other hash is absent; other hash frozen after {} of its RPCs) {}", w.other_depth, detail)); }
@@ -692,7 +711,7 @@ fn enumerate_faults(ctx: &mut Ctx, rng: &mut Rng, sock: &str, lost: bool) {
         for open in [false, true] {
             let nd = 1_006_000u64;
             let first = format!("ar:0:1000000:{}:1400:300:{}", nd, nd);
-            let g0 = Gen { faults_w: false, faults_r: false, crashes: false, lost: false, replay: false, coop: Some(complete), other: false, other_depth: 0, hold_first: 0 };
+            let g0 = Gen { faults_w: false, faults_r: false, crashes: false, lost: false, replay: false, coop: Some(complete), other: false, other_depth: 0, hold_first: 0, select_seed: None };
             let base = run_case(ctx, rng, sock, open, default_cfg(), vec![first.clone()], 60, &g0);
             // the cooperative part ends where the drain would start: keep the prefix up to the first probe arrival
             let end = base.iter().skip(1).position(|a| a.starts_with("ar:")).map(|p| p + 1).unwrap_or(base.len());
@@ -700,18 +719,18 @@ fn enumerate_faults(ctx: &mut Ctx, rng: &mut Rng, sock: &str, lost: bool) {
             for k in 1..=base.len() {
                 // crash after the k-th action
                 let mut sc: Vec<String> = base[..k].to_vec(); sc.push("cr".into());
-                let g = Gen { faults_w: false, faults_r: false, crashes: false, lost: false, replay: false, coop: None, other: false, other_depth: 0, hold_first: 0 };
+                let g = Gen { faults_w: false, faults_r: false, crashes: false, lost: false, replay: false, coop: None, other: false, other_depth: 0, hold_first: 0, select_seed: None };
                 run_case(ctx, rng, sock, open, default_cfg(), sc, 0, &g); ctx.count("enum:crash-point");
                 // the k-th action, if it serves a write, with each fault
                 if k < base.len() { if let Some(tok) = base[k].strip_prefix("s:") { if tok.starts_with("ws") || tok.starts_with("wa") {
                     let kinds: &[&str] = if lost { &["fL"] } else { &["fR", "fA"] };
                     for f in kinds {
                         let mut sc: Vec<String> = base[..k].to_vec(); sc.push(format!("{}:{}", f, tok));
-                        let g = Gen { faults_w: false, faults_r: false, crashes: false, lost, replay: false, coop: Some(complete), other: false, other_depth: 0, hold_first: 0 };
+                        let g = Gen { faults_w: false, faults_r: false, crashes: false, lost, replay: false, coop: Some(complete), other: false, other_depth: 0, hold_first: 0, select_seed: None };
                         run_case(ctx, rng, sock, open, default_cfg(), sc.clone(), 80, &g); ctx.count("enum:write-fault");
                         // … and a crash right after the faulty write
                         sc.push(format!("d:{}", tok)); sc.push("cr".into());
-                        let g = Gen { faults_w: false, faults_r: false, crashes: false, lost, replay: false, coop: None, other: false, other_depth: 0, hold_first: 0 };
+                        let g = Gen { faults_w: false, faults_r: false, crashes: false, lost, replay: false, coop: None, other: false, other_depth: 0, hold_first: 0, select_seed: None };
                         run_case(ctx, rng, sock, open, default_cfg(), sc, 0, &g); ctx.count("enum:write-fault-then-crash");
                     }
                 } } }
@@ -728,7 +747,7 @@ fn enumerate_overlap(ctx: &mut Ctx, rng: &mut Rng, sock: &str) {
     let ar = format!("ar:0:1000000:{}:1400:300:{}", nd, nd);
     for open in [false, true] {
         for first_complete in [false, true] {
-            let g0 = Gen { faults_w: false, faults_r: false, crashes: false, lost: false, replay: false, coop: Some(first_complete), other: false, other_depth: 0, hold_first: 0 };
+            let g0 = Gen { faults_w: false, faults_r: false, crashes: false, lost: false, replay: false, coop: Some(first_complete), other: false, other_depth: 0, hold_first: 0, select_seed: None };
             let base = run_case(ctx, rng, sock, open, default_cfg(), vec![ar.clone()], 60, &g0);
             let first_bk = if first_complete { format!("s:wsS{}:cor", PRE) } else { "s:wa1:cor".to_string() };
             let j = match base.iter().position(|a| *a == first_bk) { Some(j) => j, None => continue };
@@ -737,19 +756,54 @@ fn enumerate_overlap(ctx: &mut Ctx, rng: &mut Rng, sock: &str) {
                 let held_tok = base[hold_at].clone();
                 for second_complete in [true, false] {
                     let mut s0: Vec<String> = base[..hold_at].to_vec(); s0.push(ar.clone());
-                    let g = Gen { faults_w: false, faults_r: false, crashes: false, lost: false, replay: false, coop: Some(second_complete), other: false, other_depth: 0, hold_first: 1 };
+                    let g = Gen { faults_w: false, faults_r: false, crashes: false, lost: false, replay: false, coop: Some(second_complete), other: false, other_depth: 0, hold_first: 1, select_seed: None };
                     let full = run_case(ctx, rng, sock, open, default_cfg(), s0.clone(), 80, &g); ctx.count("enum:overlap");
                     let tail: Vec<String> = full[s0.len().min(full.len())..].to_vec();
                     let cut = tail.iter().position(|a| *a == held_tok).unwrap_or(tail.len());
                     for k in 0..cut {
                         let mut sc = s0.clone(); sc.extend(tail[..k].iter().cloned());
                         // release: the held write is the oldest parked request, the cooperative environment serves it first
-                        let g = Gen { faults_w: false, faults_r: false, crashes: false, lost: false, replay: false, coop: Some(second_complete), other: false, other_depth: 0, hold_first: 0 };
+                        let g = Gen { faults_w: false, faults_r: false, crashes: false, lost: false, replay: false, coop: Some(second_complete), other: false, other_depth: 0, hold_first: 0, select_seed: None };
                         run_case(ctx, rng, sock, open, default_cfg(), sc.clone(), 80, &g); ctx.count("enum:overlap");
                         // … and the same with a crash right after the released write was applied
                         sc.push(held_tok.clone()); sc.push(format!("d:{}", &held_tok[2..])); sc.push("cr".into());
-                        let g = Gen { faults_w: false, faults_r: false, crashes: false, lost: false, replay: false, coop: None, other: false, other_depth: 0, hold_first: 0 };
+                        let g = Gen { faults_w: false, faults_r: false, crashes: false, lost: false, replay: false, coop: None, other: false, other_depth: 0, hold_first: 0, select_seed: None };
                         run_case(ctx, rng, sock, open, default_cfg(), sc, 0, &g); ctx.count("enum:overlap-then-crash");
+                    }
+                }
+            }
+        }
+    }
+}
+
+/// the interrupted attempt still has pending parts when the HTLCs are replayed (restart path inside
+/// `wait_payment`), and the same inside the pay wrapper without a restart: every outcome and order of
+/// one or two parts, including a part that resolves between the two listings (C02, C15, C16).
+fn enumerate_restart(ctx: &mut Ctx, rng: &mut Rng, sock: &str) {
+    let nd = 1_006_000u64;
+    let ar = format!("ar:0:1000000:{}:1400:300:{}", nd, nd);
+    let pre: Vec<String> = [ar.as_str(), "s:dl", "d:dl", "s:wsP1:cor", "d:wsP1:cor", "s:wa1:mc", "d:wa1:mc"].iter().map(|x| x.to_string()).collect();
+    let outcomes1: Vec<Vec<&str>> = vec![vec!["r1:c77", "s:w1", "d:w1"], vec!["r1:f", "s:w1", "d:w1"]];
+    let outcomes2: Vec<Vec<&str>> = vec![
+        vec!["r1:f", "s:w1", "d:w1", "r2:c77", "s:w2", "d:w2"], vec!["r2:c77", "s:w2", "d:w2", "r1:f", "s:w1", "d:w1"],
+        vec!["r1:f", "r2:f", "s:w2", "d:w2", "s:w1", "d:w1"], vec!["r1:f", "s:w1", "r2:c77", "s:w2", "d:w2", "d:w1"],
+        vec!["r1:c77", "r2:f", "s:w2", "d:w2", "s:w1", "d:w1"], vec!["r1:f", "s:w1", "d:w1", "r2:f", "s:w2", "d:w2"]];
+    for open in [false, true] {
+        for nparts in [1usize, 2] {
+            let creates: Vec<String> = (1..=nparts).map(|i| format!("c{}", i)).collect();
+            let outs = if nparts == 1 { &outcomes1 } else { &outcomes2 };
+            for restart in [true, false] {
+                // how the plugin gets into wait_payment: after a crash (replayed HTLC) or because pay returned without a result
+                let enter: Vec<String> = if restart { vec!["cr".into(), ar.clone(), "s:dl".into(), "d:dl".into()] } else { vec![(*rng.pick(&["pe:pending", "pe:failed", "pe:failedwarn", "pe:err"])).to_string(), "d:pay".into()] };
+                for between in [false, true] {
+                    for o in outs.iter() {
+                        let mut sc = pre.clone(); sc.extend(creates.iter().cloned()); sc.extend(enter.iter().cloned());
+                        sc.push("s:lp".into()); sc.push("d:lp".into());
+                        if between { sc.push("r1:c77".into()); }
+                        sc.push("s:lc".into()); sc.push("d:lc".into());
+                        sc.extend(o.iter().map(|x| x.to_string()));
+                        let g = Gen { faults_w: false, faults_r: false, crashes: false, lost: false, replay: false, coop: Some(true), other: false, other_depth: 0, hold_first: 0, select_seed: None };
+                        run_case(ctx, rng, sock, open, default_cfg(), sc, 40, &g); ctx.count("enum:restart-pending-parts");
                     }
                 }
             }
@@ -762,23 +816,27 @@ pub fn run(mut ctx: Ctx) {
     let sock = format!("{}/system.sock", ctx.dir);
     if let Some(path) = ctx.replay.clone() {
         for line in std::fs::read_to_string(path).expect("replay").lines() {
-            if let Some((cfg, open, script)) = parse_line(line) { let l = script.len(); run_case(&mut ctx, &mut rng, &sock, open, cfg, script, l, &Gen { faults_w: false, faults_r: false, crashes: false, lost: false, replay: true, coop: None, other: false, other_depth: 0, hold_first: 0 }); }
+            // VERIF_REPLAY_DRAIN=1: after the script the drain and probe phases run (hang / unpayable verdicts need them)
+            let drain = std::env::var("VERIF_REPLAY_DRAIN").map(|v| v == "1").unwrap_or(false);
+            let od = parse_other(line);
+            if let Some((cfg, open, script)) = parse_line(line) { let l = script.len(); run_case(&mut ctx, &mut rng, &sock, open, cfg, script, if drain { 0 } else { l }, &Gen { faults_w: false, faults_r: false, crashes: false, lost: false, replay: !drain, coop: None, other: od.is_some(), other_depth: od.unwrap_or(0), hold_first: 0, select_seed: parse_select_seed(line) }); }
         }
         ctx.finish("replay", "");
         return;
     }
     if let Ok(c) = std::fs::read_to_string("/verif/corpus/system/cases.txt") {
-        for line in c.lines() { if let Some((cfg, open, script)) = parse_line(line) { let l = script.len(); run_case(&mut ctx, &mut rng, &sock, open, cfg, script, l, &Gen { faults_w: false, faults_r: false, crashes: false, lost: false, replay: false, coop: None, other: false, other_depth: 0, hold_first: 0 }); ctx.count("corpus"); } }
+        for line in c.lines() { let od = parse_other(line); if let Some((cfg, open, script)) = parse_line(line) { let l = script.len(); run_case(&mut ctx, &mut rng, &sock, open, cfg, script, l, &Gen { faults_w: false, faults_r: false, crashes: false, lost: false, replay: false, coop: None, other: od.is_some(), other_depth: od.unwrap_or(0), hold_first: 0, select_seed: parse_select_seed(line) }); ctx.count("corpus"); } }
     }
     enumerate_faults(&mut ctx, &mut rng, &sock, false);
     enumerate_overlap(&mut ctx, &mut rng, &sock);
+    enumerate_restart(&mut ctx, &mut rng, &sock);
     if ctx.thorough { enumerate_faults(&mut ctx, &mut rng, &sock, true); }
     let n = if ctx.thorough { 6000 } else { 300 };
     for i in 0..n {
         let open = i % 4 == 3;
         let mut cfg = default_cfg();
         if i % 9 == 8 { cfg.mpp = *rng.pick(&[0u64, 1, 30]); }
-        let g = Gen { faults_w: i % 3 == 1, faults_r: ctx.thorough && i % 10 == 9, crashes: i % 2 == 1, lost: ctx.thorough && i % 17 == 16, replay: false, coop: None, other: i % 4 == 2, other_depth: (i / 4) % 5, hold_first: 0 };
+        let g = Gen { faults_w: i % 3 == 1, faults_r: ctx.thorough && i % 10 == 9, crashes: i % 2 == 1, lost: ctx.thorough && i % 17 == 16, replay: false, coop: None, other: i % 4 == 2, other_depth: (i / 4) % 5, hold_first: 0, select_seed: None };
         let len = 25 + rng.below(40) as usize;
         run_case(&mut ctx, &mut rng, &sock, open, cfg, vec![], len, &g);
     }
@@ -787,6 +845,17 @@ pub fn run(mut ctx: Ctx) {
         "schedules of 25–65 actions over the real HtlcManager+ClnDatastore+PayPaymentProvider<Rpc>+BlockWatcher: 1–7 HTLC calls (under/exact/over-funded, low/negative relative expiry, declared total too low, conflicting invoice string or amount), every RPC served and delivered separately, part creation/resolution, every pay outcome, virtual and wall time steps, blocks, write faults in 1/3, crashes in 1/2 (read faults in 1/10 of the thorough tier); non-trivial = a pay RPC was issued or a crash happened; distinct = distinct schedule line",
         "",
     );
+}
+
+pub fn parse_other(line: &str) -> Option<usize> {
+    let w: Vec<&str> = line.split_whitespace().collect();
+    let h: Vec<u64> = w.get(1)?.split(',').map(|x| x.parse().unwrap_or(0)).collect();
+    match h.get(6) { Some(d) if *d > 0 => Some(*d as usize - 1), _ => None }
+}
+
+pub fn parse_select_seed(line: &str) -> Option<u64> {
+    let w: Vec<&str> = line.split_whitespace().collect();
+    w.get(1)?.split(',').nth(7).and_then(|x| x.parse().ok())
 }
 
 pub fn parse_line(line: &str) -> Option<(SCfg, bool, Vec<String>)> {
